@@ -33,9 +33,14 @@ N_MAX = 1 << 32          # stated bound on the string length (usize arithmetic o
 class ArrIter(Opaque):
     """core::slice::Iter over an ArrV: position pos (64-bit)"""
 
-    def __init__(self, arr, pos):
+    def __init__(self, arr, pos, second=None, enumerated=False):
         Opaque.__init__(self, "iter", arr)
         self.pos = pos
+        self.second = second          # zipped with (start, end, step): a stepped range
+        self.enumerated = enumerated
+
+    def clone(self, pos):
+        return ArrIter(self.e, pos, self.second, self.enumerated)
 
     def __repr__(self):
         return "ArrIter(pos=%s)" % (self.pos,)
@@ -156,9 +161,21 @@ def table(cfg):
         v = argv[0]
         if not (isinstance(v, ArrIter) and z3.is_bv_value(z3.simplify(v.pos)) and z3.simplify(v.pos).as_long() == 0):
             raise Unsupported("enumerate on %r" % (v,))
-        e = ArrIter(v.e, v.pos)
-        e.enumerated = True
-        return ok1(st, e)
+        return ok1(st, ArrIter(v.e, v.pos, v.second, True))
+
+    def s_step_by(ex, st, callee, args, argv, f):
+        r, step = argv
+        if not (isinstance(r, Agg) and len(r.fields) == 2 and z3.is_bv(step)):
+            raise Unsupported("step_by on %r" % (r,))
+        return ok1(st, Opaque("stepped-range", (r.fields[0], r.fields[1], step)))
+
+    def s_zip(ex, st, callee, args, argv, f):
+        a, b = argv
+        if isinstance(b, Agg) and len(b.fields) == 2 and b.tyname == "Range":
+            b = Opaque("stepped-range", (b.fields[0], b.fields[1], z3.BitVecVal(1, 64)))
+        if not (isinstance(a, ArrIter) and a.second is None and isinstance(b, Opaque) and b.tag == "stepped-range"):
+            raise Unsupported("zip of %r and %r" % (a, b))
+        return ok1(st, ArrIter(a.e, a.pos, b.e, a.enumerated))
 
     def s_next(ex, st, callee, args, argv, f):
         r = argv[0]
@@ -167,13 +184,17 @@ def table(cfg):
             raise Unsupported("Iterator::next on %r" % (it,))
         a = it.e
         more = z3.ULT(it.pos, a.length)
-        nxt = ArrIter(a, z3.If(more, it.pos + 1, it.pos))
-        nxt.enumerated = getattr(it, "enumerated", False)
-        ex.write_ref(st, r, [], nxt)
-        d = z3.If(more, z3.BitVecVal(1, 64), z3.BitVecVal(0, 64))
         item = a.at(it.pos)
-        if getattr(it, "enumerated", False):
+        if it.second is not None:
+            start, end, step = it.second
+            # the stepped range yields start + step*k while that is below end (k-th element; no wrap-around below 2^32 elements)
+            val = start + step * it.pos
+            more = z3.And(more, z3.ULT(val, end))
+            item = Agg([item, val])
+        if it.enumerated:
             item = Agg([it.pos, item])
+        ex.write_ref(st, r, [], it.clone(z3.If(more, it.pos + 1, it.pos)))
+        d = z3.If(more, z3.BitVecVal(1, 64), z3.BitVecVal(0, 64))
         return ok1(st, EnumV("Option", d, {1: [item]}))
 
     def s_ref_sub(ex, st, callee, args, argv, f):
@@ -216,6 +237,10 @@ def table(cfg):
         (r"^<&\[u8\] as IntoIterator>::into_iter$|^core::slice::<impl \[u8\]>::iter$|^<(?:std::|core::)?slice::Iter<'_, u8> as IntoIterator>::into_iter$|"
          r"^<Enumerate<(?:std::|core::)?slice::Iter<'_, u8>> as IntoIterator>::into_iter$", s_into_iter),
         (r"^<(?:std::|core::)?slice::Iter<'_, u8> as Iterator>::enumerate$", s_enumerate),
+        (r"^<Range<usize> as Iterator>::step_by$", s_step_by),
+        (r"^<(?:std::|core::)?slice::Iter<'_, u8> as Iterator>::zip::<", s_zip),
+        (r"^<Zip<.*> as IntoIterator>::into_iter$", s_into_iter),
+        (r"^<Zip<.*> as Iterator>::next$", s_next),
         (r"^<(?:std::|core::)?slice::Iter<'_, u8> as Iterator>::next$|^<Enumerate<(?:std::|core::)?slice::Iter<'_, u8>> as Iterator>::next$", s_next),
         (r"^<&u8 as Sub<u8>>::sub$|^<u8 as Sub<&u8>>::sub$|^<&u8 as Sub<&u8>>::sub$", s_ref_sub),
         (r"^(?:(?:std|core)::cmp::)?min::<usize>$|^<usize as Ord>::min$", s_min),
@@ -351,9 +376,7 @@ def check(res, cfg, timeout_s=300):
         for loc in sorted(changed):
             old = top.get(loc, UNINIT)
             if isinstance(old, ArrIter):
-                it = ArrIter(old.e, i)
-                it.enumerated = getattr(old, "enumerated", False)
-                havoc[loc] = it
+                havoc[loc] = old.clone(i)
                 iter_loc = loc
                 if not (z3.is_bv_value(z3.simplify(old.pos)) and z3.simplify(old.pos).as_long() == 0):
                     raise Unsupported("iterator does not start at 0")
